@@ -255,6 +255,15 @@ func EqualKey(m protoreflect.Message) string {
 }
 
 func snapshot(sb *strings.Builder, m protoreflect.Message, eqkey bool) {
+	mode := 0
+	if eqkey {
+		mode = 1
+	}
+	snapshotMode(sb, m, mode)
+}
+
+func snapshotMode(sb *strings.Builder, m protoreflect.Message, mode int) {
+	eqkey := mode == 1
 	if !m.IsValid() {
 		sb.WriteString("<invalid>")
 	}
@@ -271,7 +280,7 @@ func snapshot(sb *strings.Builder, m protoreflect.Message, eqkey bool) {
 			continue
 		}
 		fmt.Fprintf(sb, "%d:", fd.Number())
-		snapValue(sb, fd, m.Get(fd), eqkey)
+		snapValue(sb, fd, m.Get(fd), mode)
 		sb.WriteByte(' ')
 	}
 	var exts []protoreflect.FieldDescriptor
@@ -286,16 +295,48 @@ func snapshot(sb *strings.Builder, m protoreflect.Message, eqkey bool) {
 	sort.Slice(exts, func(a, b int) bool { return exts[a].Number() < exts[b].Number() })
 	for _, fd := range exts {
 		fmt.Fprintf(sb, "x%d:", fd.Number())
-		snapValue(sb, fd, vals[fd.Number()], eqkey)
+		snapValue(sb, fd, vals[fd.Number()], mode)
 		sb.WriteByte(' ')
 	}
 	if u := m.GetUnknown(); len(u) > 0 {
 		if eqkey {
 			u = groupUnknown(u)
 		}
+		if mode == 2 {
+			u = NormUnknownTags(u)
+		}
 		fmt.Fprintf(sb, "?:%x", []byte(u))
 	}
 	sb.WriteByte('}')
+}
+
+// SnapshotNorm is Snapshot with the tag of every unknown record re-encoded in
+// minimal form (the fast path normalises unknown tags, the reflection path
+// keeps them verbatim; payload bytes are never changed).
+func SnapshotNorm(m protoreflect.Message) string {
+	var sb strings.Builder
+	snapshotMode(&sb, m, 2)
+	return sb.String()
+}
+
+// NormUnknownTags re-encodes the tag of each top-level record minimally.
+func NormUnknownTags(u []byte) []byte {
+	var out []byte
+	b := u
+	for len(b) > 0 {
+		num, typ, tn := protowire.ConsumeTag(b)
+		if tn < 0 {
+			return u
+		}
+		n := protowire.ConsumeFieldValue(num, typ, b[tn:])
+		if n < 0 {
+			return u
+		}
+		out = protowire.AppendTag(out, num, typ)
+		out = append(out, b[tn:tn+n]...)
+		b = b[tn+n:]
+	}
+	return out
 }
 
 // groupUnknown stable-sorts unknown records by field number.
@@ -322,7 +363,7 @@ func groupUnknown(u protoreflect.RawFields) protoreflect.RawFields {
 	return out
 }
 
-func snapValue(sb *strings.Builder, fd protoreflect.FieldDescriptor, v protoreflect.Value, eqkey bool) {
+func snapValue(sb *strings.Builder, fd protoreflect.FieldDescriptor, v protoreflect.Value, eqkey int) {
 	switch {
 	case fd.IsList():
 		l := v.List()
@@ -354,12 +395,12 @@ func snapValue(sb *strings.Builder, fd protoreflect.FieldDescriptor, v protorefl
 	}
 }
 
-func snapSingle(sb *strings.Builder, fd protoreflect.FieldDescriptor, v protoreflect.Value, eqkey bool) {
+func snapSingle(sb *strings.Builder, fd protoreflect.FieldDescriptor, v protoreflect.Value, mode int) {
 	if fd.Message() != nil {
-		snapshot(sb, v.Message(), eqkey)
+		snapshotMode(sb, v.Message(), mode)
 		return
 	}
-	if eqkey {
+	if mode == 1 {
 		switch x := v.Interface().(type) {
 		case float32:
 			if x == 0 {
